@@ -158,6 +158,16 @@ func (in *Interp) readCell(o *Obj, idx *Term) Value {
 	ts := in.ts
 	if o.lenOnly {
 		w, _, _ := basicInfo(o.elemT)
+		if o.loCells != nil && idx.IsConst() {
+			// input buffer (never written: writes to length-only objects are dropped and
+			// flagged by the write monitor): the same cell always reads the same byte
+			if t, ok := o.loCells[idx.Val]; ok {
+				return t
+			}
+			t := in.ts.Var(fmt.Sprintf("%s[%d]", o.loName, idx.Val), BV(w))
+			o.loCells[idx.Val] = t
+			return t
+		}
 		return in.freshVar("lo", BV(w))
 	}
 	if idx.IsConst() {
